@@ -511,7 +511,9 @@ func countIte(t *Term) int {
 
 // simpleLang: C* for a byte class C, or lit·Σ*, or Σ*·lit.
 func simpleLang(r *Re) bool {
-	isAnyStar := func(x *Re) bool { return x.key == reAll.key || (x.op == "star" && x.subs[0].op == "set" && x.subs[0].set.full()) }
+	isAnyStar := func(x *Re) bool {
+		return x.key == reAll.key || (x.op == "star" && x.subs[0].op == "set" && x.subs[0].set.full())
+	}
 	if r.op == "star" && r.subs[0].op == "set" {
 		return true
 	}
